@@ -53,6 +53,7 @@ type VC struct {
 	tagsFn  []string
 	effTags []string
 	Replay  *ReplayCtx
+	ghostCells map[string]*Cell
 	traceCell, tlenCell *Cell // ghost: the sequence of effectful calls made directly by the unit under verification
 	RegexUses []RegexUse // matches(x, regexVar) occurrences (for replaying language lemmas)
 	pureTerm map[string]string
@@ -457,4 +458,50 @@ func (vc *VC) logEffect(st *State, key string, recv string, strs []string, err s
 	ln := st.cells[lc]
 	st.cells[tc] = vc.define("trace", "(Array Int Event)", fmt.Sprintf("(store %s %s %s)", st.cells[tc], ln, ev))
 	st.cells[lc] = vc.define("tlen", "Int", fmt.Sprintf("(+ %s 1)", ln))
+}
+
+
+// ghostCell returns the cell of a specification-only global variable, initialised to an arbitrary value in st.
+func (vc *VC) ghostCell(st *State, name, sort string) *Cell {
+	if vc.ghostCells == nil {
+		vc.ghostCells = map[string]*Cell{}
+	}
+	c, ok := vc.ghostCells[name]
+	if !ok {
+		vc.n++
+		c = &Cell{Name: "ghost_" + name, Sort: sort, id: vc.n}
+		vc.ghostCells[name] = c
+	}
+	if _, ok := st.cells[c]; !ok {
+		st.cells[c] = vc.declareConst("ghost0_"+sanitize(name), sort)
+	}
+	return c
+}
+
+
+// elemsOf is the set of elements of a []string term. Global axioms tie it to positions:
+// every xs[i] (0 <= i < len) is a member, and every member has a witness position.
+func (vc *VC) elemsOf(t string) string {
+	if !vc.declOf["elems_String"] {
+		vc.declareFun("elems_String", []string{"Slice_String"}, "(Array String Bool)")
+		vc.declareFun("elemidx_String", []string{"Slice_String", "String"}, "Int")
+		vc.axioms = append(vc.axioms,
+			"(forall ((?xs Slice_String) (?i Int)) (! (=> (and (<= 0 ?i) (< ?i (len_Slice_String ?xs))) (select (elems_String ?xs) (select (arr_Slice_String ?xs) ?i))) :pattern ((select (arr_Slice_String ?xs) ?i) (elems_String ?xs))))",
+			"(forall ((?xs Slice_String) (?x String)) (! (=> (select (elems_String ?xs) ?x) (and (<= 0 (elemidx_String ?xs ?x)) (< (elemidx_String ?xs ?x) (len_Slice_String ?xs)) (= (select (arr_Slice_String ?xs) (elemidx_String ?xs ?x)) ?x))) :pattern ((select (elems_String ?xs) ?x))))",
+			"(forall ((?xs Slice_String)) (! (=> (= (len_Slice_String ?xs) 0) (= (elems_String ?xs) ((as const (Array String Bool)) false))) :pattern ((elems_String ?xs))))",
+		)
+	}
+	return fmt.Sprintf("(elems_String %s)", t)
+}
+
+// setUnion is point-wise disjunction of two string sets.
+func (vc *VC) setUnion(a, b string) string {
+	if !vc.declOf["setunion_String"] {
+		vc.declareFun("setunion_String", []string{"(Array String Bool)", "(Array String Bool)"}, "(Array String Bool)")
+		vc.axioms = append(vc.axioms,
+			"(forall ((?a (Array String Bool)) (?b (Array String Bool)) (?x String)) (! (= (select (setunion_String ?a ?b) ?x) (or (select ?a ?x) (select ?b ?x))) :pattern ((select (setunion_String ?a ?b) ?x))))",
+			"(forall ((?a (Array String Bool))) (! (= (setunion_String ?a ((as const (Array String Bool)) false)) ?a) :pattern ((setunion_String ?a ((as const (Array String Bool)) false)))))",
+		)
+	}
+	return fmt.Sprintf("(setunion_String %s %s)", a, b)
 }
